@@ -546,6 +546,11 @@ func (w *world) checkNodes(when string) {
 	if pinned != 0 {
 		w.e.Probe("pinned_nodes_without_open_iterator")
 	}
+	if nodes < 0 {
+		// the cache does not keep its entries in an iterable.Map list: nothing this oracle can walk
+		w.e.Probe("recency_list_not_inspectable")
+		return
+	}
 	if nodes != resident+1 {
 		w.e.Violate("C11", "retained_entries", "%s: the cache holds %d live entries but %d list nodes are reachable from the head (expected %d) and %d of them are pinned by a reference count: removed entries are retained", when, resident, nodes, resident+1, pinned)
 	}
